@@ -56,10 +56,16 @@ class PE:
             "set_name": Builtin("set_name", lambda n: self._named(n)),
             "leaveWhitespace": Builtin("leaveWhitespace", lambda *a: self._leave()),
             "leave_whitespace": Builtin("leave_whitespace", lambda *a: self._leave()),
-            "copy": Builtin("copy", lambda: self),
+            "copy": Builtin("copy", lambda: self._copy()),
             "parseString": Builtin("parseString", lambda s, *a, **k: Grammar(self, I).parse(s, all_=bool(a and a[0]) or bool(k.get("parseAll") or k.get("parse_all")))),
             "parse_string": Builtin("parse_string", lambda s, *a, **k: Grammar(self, I).parse(s, all_=bool(a and a[0]) or bool(k.get("parseAll") or k.get("parse_all")))),
         }
+
+    def _copy(self):
+        import copy as _copy
+        c = _copy.copy(self)
+        c.actions = list(self.actions)
+        return c
 
     def _set_actions(self, fns):
         self.actions = list(fns)
@@ -247,7 +253,31 @@ def constructors(I):
         "StringEnd": lambda: StringEnd(), "Empty": lambda: Empty(), "NotAny": lambda e: NotAny(_pe(e)), "FollowedBy": lambda e: FollowedBy(_pe(e)),
         "And": lambda es: And([_pe(e) for e in es]), "MatchFirst": lambda es: MatchFirst([_pe(e) for e in es]),
     }
-    return {k: Builtin("pyparsing." + k, v) for k, v in table.items()}
+    out = {k: Builtin("pyparsing." + k, v) for k, v in table.items()}
+    out["pyparsing_common"] = out["common"] = PPCommon()
+    return out
+
+
+class PPCommon:
+    """pyparsing.pyparsing_common: the numeric expressions, each a Regex of the library's own pattern with its conversion
+    action (patterns and actions transcribed from pyparsing 3: integer, signed_integer, real, sci_real, fnumber, number)."""
+    PATTERNS = {"integer": (r"[0-9]+", "int"), "signed_integer": (r"[+-]?\d+", "int"), "real": (r"[+-]?(?:\d+\.\d*|\.\d+)", "float"),
+                "sci_real": (r"[+-]?(?:\d+(?:[eE][+-]?\d+)|(?:\d+\.\d*|\.\d+)(?:[eE][+-]?\d+)?)", "float"),
+                "fnumber": (r"[+-]?\d+\.?\d*(?:[eE][+-]?\d+)?", "float")}
+
+    def attr(self, name):
+        import sympy as sp
+        if name == "number":
+            return MatchFirst([self.attr("sci_real"), self.attr("real"), self.attr("signed_integer")])
+        if name not in self.PATTERNS:
+            raise AnalysisError(f"pyparsing_common.{name} is not modelled")
+        pat, kind = self.PATTERNS[name]
+        e = Regex(pat)
+        conv = (lambda t: sp.Integer(int(t[0]))) if kind == "int" else (lambda t: sp.Rational(t[0]) if "e" not in t[0].lower() else sp.Float(t[0]))
+        b = Builtin("pyparsing_common." + name, conv)
+        b.peg_nargs = 1
+        e.actions = [b]
+        return e
 
 
 def _pe(e):
@@ -355,6 +385,8 @@ class Grammar:
             nargs = len(a.posonlyargs) + len(a.args) - (1 if bound else 0)
             if a.vararg:
                 nargs = 3
+        if isinstance(fn, Builtin) and getattr(fn, "peg_nargs", None):
+            nargs = fn.peg_nargs
         args = [s, loc, toks][3 - nargs:] if nargs <= 3 else [s, loc, toks]
         return self.I.call(fn, args, {})
 
